@@ -37,6 +37,11 @@
    its reply and unlocks / readLoop hands the reply to the head of the FIFO), Shutdown (readLoop's
    shutdown / the serial caller's failed read); the call returns with Deliver / Shutdown.
 
+   Transport faults (constant Faults): W1 must survive a transient failure of one Read of the client.  The
+   pipelined client shuts down for good; the serialised client of this package goes on using the stream
+   (Sticky = FALSE: AgentWire_DocDesync.cfg, OwnReply is violated -- finding X06-D1, reproduced on the real
+   client by harness/x06 TestDesync); with the repair (Sticky = TRUE) W1 holds (AgentWire_Faults.cfg).
+
    Deliberately WRONG variants (constants, FALSE in the design; each must violate a property -- they
    show the properties bite): NoMutex (serialCall without client.mu), LateEnqueue (reply channel
    enqueued after the write, outside writeMu), ContinueAfterOversize (ServeAgent skips an oversized
@@ -49,7 +54,9 @@ CONSTANTS Conns,          \* connections (each: one client object, one ServeAgen
           MaxCalls,       \* calls per caller
           Budget,         \* calls per connection
           ReqMenu,        \* requests a caller may issue (AReq records; op "zero"/"oversize" = bad frame header)
-          NoMutex, LateEnqueue, ContinueAfterOversize, UnknownKills
+          NoMutex, LateEnqueue, ContinueAfterOversize, UnknownKills,
+          Faults,         \* BOOLEAN: the client's transport may fail one Read transiently (a deadline, an interrupted call)
+          Sticky          \* BOOLEAN: the serialised client treats a failed call as terminal (as the pipelined one does)
 
 VARIABLES cl,       \* [Conns -> [Callers -> [pc, n, req, res]]]  pc: idle | sent;  n: calls completed
           mu,       \* [Conns -> Callers \cup {0}]   holder of client.mu (serialised client)
@@ -59,9 +66,10 @@ VARIABLES cl,       \* [Conns -> [Callers -> [pc, n, req, res]]]  pc: idle | sen
           srv,      \* [Conns -> [st, id, req, rep]] the ServeAgent loop
           ended,    \* [Conns -> "no" | "badframe" | "killed"]  why ServeAgent has returned (transport closed), if it has
           down,     \* [Conns -> BOOLEAN]            pipeline shut down (exitCh closed)
-          used      \* [Conns -> Nat]                calls issued (budget)
+          used,     \* [Conns -> Nat]                calls issued (budget)
+          fault     \* [Conns -> BOOLEAN]            a Read of the client failed (Faults only)
 
-wireVars == <<cl, mu, pend, late, c2s, s2c, srv, ended, down, used>>
+wireVars == <<cl, mu, pend, late, c2s, s2c, srv, ended, down, used, fault>>
 closed == [c \in Conns |-> ended[c] # "no"]
 vars == <<agentVars, wireVars>>
 
@@ -81,6 +89,7 @@ WInit == /\ cl = [c \in Conns |-> [p \in Callers |-> [pc |-> "idle", n |-> 0, re
          /\ srv = [c \in Conns |-> Idle]
          /\ ended = [c \in Conns |-> "no"] /\ down = [c \in Conns |-> FALSE]
          /\ used = [c \in Conns |-> 0]
+         /\ fault = [c \in Conns |-> FALSE]
 Init == A!Init /\ WInit
 
 Id(c, p) == <<p, cl[c][p].n>>
@@ -101,7 +110,7 @@ SendFails(c, p, r) ==
   /\ IF Serial(c) THEN mu[c] = 0 \/ NoMutex ELSE TRUE
   /\ SetCl(c, p, [Done(c, p, ConnErr) EXCEPT !.req = r])
   /\ used' = [used EXCEPT ![c] = @ + 1]
-  /\ UNCHANGED <<agentVars, mu, pend, late, c2s, s2c, srv, ended, down>>
+  /\ UNCHANGED <<agentVars, mu, pend, late, c2s, s2c, srv, ended, down, fault>>
 
 \* the caller enters the API with request r and gets to write it: client.mu.Lock + Write (serialised), or
 \* writeMu.Lock + enqueue reply channel + Write + Unlock (pipelined).  (The time a caller spends waiting for
@@ -119,14 +128,14 @@ Send(c, p, r) ==
   /\ c2s' = [c2s EXCEPT ![c] = Append(@, [id |-> Id(c, p), req |-> r])]
   /\ SetCl(c, p, [cl[c][p] EXCEPT !.pc = "sent", !.req = r, !.res = NoRes])
   /\ used' = [used EXCEPT ![c] = @ + 1]
-  /\ UNCHANGED <<agentVars, s2c, srv, ended, down>>
+  /\ UNCHANGED <<agentVars, s2c, srv, ended, down, fault>>
 
 \* LateEnqueue only: the reply channel joins the FIFO some time after the write
 Enqueue(c, p) ==
   /\ p \in late[c]
   /\ late' = [late EXCEPT ![c] = @ \ {p}]
   /\ pend' = [pend EXCEPT ![c] = Append(@, p)]
-  /\ UNCHANGED <<agentVars, cl, mu, c2s, s2c, srv, ended, down, used>>
+  /\ UNCHANGED <<agentVars, cl, mu, c2s, s2c, srv, ended, down, used, fault>>
 
 Deliver(c) ==
   /\ s2c[c] # <<>>
@@ -144,7 +153,27 @@ Deliver(c) ==
           /\ pend' = [pend EXCEPT ![c] = Tail(@)]
           /\ UNCHANGED mu
   /\ s2c' = [s2c EXCEPT ![c] = Tail(@)]
-  /\ UNCHANGED <<agentVars, late, c2s, srv, ended, down, used>>
+  /\ UNCHANGED <<agentVars, late, c2s, srv, ended, down, used, fault>>
+
+\* Faults only: one Read of the client fails although the connection is alive.  The serialised caller returns the
+\* error and unlocks -- its reply is still on its way; with Sticky the client refuses further calls, without it the
+\* next caller will read that reply as its own.  The pipelined reader treats any failed Read as the end: shutdown.
+ReadFault(c) ==
+  /\ Faults /\ ~fault[c] /\ ~closed[c] /\ ~down[c]
+  /\ fault' = [fault EXCEPT ![c] = TRUE]
+  /\ IF Serial(c)
+     THEN /\ \E p \in Callers :
+               /\ cl[c][p].pc = "sent" /\ mu[c] = p
+               /\ SetCl(c, p, Done(c, p, ConnErr))
+          /\ mu' = [mu EXCEPT ![c] = 0]
+          /\ down' = [down EXCEPT ![c] = Sticky]
+          /\ UNCHANGED <<pend, late, s2c>>
+     ELSE /\ down' = [down EXCEPT ![c] = TRUE]
+          /\ cl' = [cl EXCEPT ![c] = [p \in Callers |-> IF cl[c][p].pc = "sent" THEN Done(c, p, ConnErr) ELSE cl[c][p]]]
+          /\ pend' = [pend EXCEPT ![c] = <<>>] /\ late' = [late EXCEPT ![c] = {}]
+          /\ s2c' = [s2c EXCEPT ![c] = <<>>]
+          /\ UNCHANGED mu
+  /\ UNCHANGED <<agentVars, c2s, srv, ended, used>>
 
 \* the connection has ended: the serial caller's read fails; readLoop fails and shuts the pipeline down,
 \* handing the terminal error to every waiting caller (replies still buffered may or may not have been
@@ -165,7 +194,7 @@ Shutdown(c) ==
           /\ pend' = [pend EXCEPT ![c] = <<>>] /\ late' = [late EXCEPT ![c] = {}]
           /\ s2c' = [s2c EXCEPT ![c] = <<>>]
           /\ UNCHANGED mu
-  /\ UNCHANGED <<agentVars, c2s, srv, ended, used>>
+  /\ UNCHANGED <<agentVars, c2s, srv, ended, used, fault>>
 
 -----------------------------------------------------------------------------
 (* server side: the ServeAgent loop of connection c *)
@@ -182,7 +211,7 @@ SrvRead(c) ==
                                        ELSE [st |-> "got", id |-> h.id, req |-> h.req, rep |-> NoReply]]
           /\ c2s' = [c2s EXCEPT ![c] = Tail(@)]
           /\ UNCHANGED ended
-  /\ UNCHANGED <<agentVars, cl, mu, pend, late, s2c, down, used>>
+  /\ UNCHANGED <<agentVars, cl, mu, pend, late, s2c, down, used, fault>>
 
 SrvServe(c) ==
   /\ srv[c].st = "got"
@@ -194,17 +223,17 @@ SrvServe(c) ==
      ELSE /\ Serve(srv[c].req)
           /\ srv' = [srv EXCEPT ![c] = [@ EXCEPT !.st = "done", !.rep = ReplyFor(srv[c].req, last')]]
           /\ UNCHANGED <<ended, c2s>>
-  /\ UNCHANGED <<cl, mu, pend, late, s2c, down, used>>
+  /\ UNCHANGED <<cl, mu, pend, late, s2c, down, used, fault>>
 
 SrvWrite(c) ==
   /\ srv[c].st = "done"
   /\ s2c' = [s2c EXCEPT ![c] = Append(@, [id |-> srv[c].id, rep |-> srv[c].rep])]
   /\ srv' = [srv EXCEPT ![c] = Idle]
-  /\ UNCHANGED <<agentVars, cl, mu, pend, late, c2s, ended, down, used>>
+  /\ UNCHANGED <<agentVars, cl, mu, pend, late, c2s, ended, down, used, fault>>
 
 -----------------------------------------------------------------------------
 ClientStep(c) == \/ \E p \in Callers : (\E r \in ReqMenu : Send(c, p, r) \/ SendFails(c, p, r)) \/ Enqueue(c, p)
-                 \/ Deliver(c) \/ Shutdown(c)
+                 \/ Deliver(c) \/ Shutdown(c) \/ ReadFault(c)
 ServerStep(c) == SrvRead(c) \/ SrvServe(c) \/ SrvWrite(c)
 Next == \E c \in Conns : ClientStep(c) \/ ServerStep(c)
 \* everything but the callers' decision to call is fair
@@ -231,7 +260,7 @@ GoodOnly(q) == SelectSeq(q, LAMBDA m : m.req.op \notin FrameErr)
 InFlight(c) == Ids(s2c[c]) \o (IF srv[c].st \in {"got", "done"} THEN <<srv[c].id>> ELSE <<>>) \o Ids(GoodOnly(c2s[c]))
 OneReplyInOrder ==
   \A c \in Conns :
-    (~closed[c] /\ ~down[c]) =>
+    (~closed[c] /\ ~down[c] /\ ~fault[c]) =>
        IF Serial(c)
        THEN InFlight(c) = (IF mu[c] # 0 /\ cl[c][mu[c]].pc = "sent" /\ cl[c][mu[c]].req.op \notin FrameErr
                            THEN <<Id(c, mu[c])>> ELSE <<>>)
@@ -240,7 +269,8 @@ OneReplyInOrder ==
 
 \* W3: the agent changes only in SrvServe, and the request served belongs to a caller that is inside its call
 AgentOnlyByServe == [][agentVars' # agentVars => \E c \in Conns : srv[c].st = "got" /\ srv'[c].st = "done"]_vars
-LinInsideCall == \A c \in Conns : srv[c].st \in {"got", "done"} /\ srv[c].id # JunkId =>
+\* (after a failed Read the outcome of the abandoned call is unknown: its request may still be served)
+LinInsideCall == \A c \in Conns : srv[c].st \in {"got", "done"} /\ srv[c].id # JunkId /\ ~fault[c] =>
                    LET p == srv[c].id[1] IN cl[c][p].pc = "sent" /\ cl[c][p].n = srv[c].id[2] /\ cl[c][p].req = srv[c].req
 
 \* W4
@@ -254,7 +284,7 @@ RejectGetsFailure == \A c \in Conns, p \in Callers :
 
 \* W5
 ConnErrOnlyIfEnded == \A c \in Conns, p \in Callers :
-                        (Returned(c, p) /\ cl[c][p].res.t = "connerr") => closed[c]
+                        (Returned(c, p) /\ cl[c][p].res.t = "connerr") => closed[c] \/ fault[c]
 EndsOnlyByBadFrame == \A c \in Conns : ended[c] \in {"no", "badframe"}
 NoReplyToBadFrame == \A c \in Conns, p \in Callers :
                        (Returned(c, p) /\ cl[c][p].req.op \in FrameErr) => cl[c][p].res.t = "connerr"
